@@ -283,6 +283,15 @@ theorem compiled_state_is_a_state_vector_up_to_phase (ne np : Nat) (d : Det) (sc
   exact ⟨rank_one_of_projector_trace_one r.ρ h1 h2 h3,
     fun ψ φ e1 e2 n1 n2 => outer_eq_phase ψ φ (e1.symm.trans e2) n1 n2⟩
 
+open Graphiq.DMH Graphiq.Hilbert in
+/-- **A reset leaves the measured qubit in |0⟩, in the compiled state**: after every measure-and-reset step of the
+    stabilizer compile loop (any input state of the run, any setting, any outcome, control = target allowed) the
+    projector `|0⟩⟨0|` of the control fixes the state of the new tableau — `+Z_c` is a stabilizer. -/
+theorem measure_and_reset_leaves_control_in_ket0 (np n : Nat) (d : Det) (s s' : RunState) (c t : QReg) (creg : Nat)
+    (hv : s.t.Valid) (hn : s.t.n = n) (hr : s.t.StabReal) (hs : stepOp np n d s (.mcr c t creg) = some s') :
+    proj n (PRow.Zq (qIndex np c) false) * rho n (STab.ofTab s'.t) = rho n (STab.ofTab s'.t) :=
+  DMRef.mcr_control_in_ket0 np n d s s' c t creg ⟨hv, hn, hr⟩ hs
+
 /-! ### Non-vacuity of `backends_agree`: a Bell pair, a Z-measurement and a classically controlled gate -/
 def bell : List COp :=
   [.gate1 .H ⟨.e, 0⟩, .cnot ⟨.e, 0⟩ ⟨.p, 0⟩, .measz ⟨.p, 0⟩ 0, .ccx ⟨.e, 0⟩ ⟨.p, 0⟩ 1, .mcr ⟨.e, 0⟩ ⟨.p, 0⟩ 0]
